@@ -19,8 +19,8 @@ TRUSTED_BASE = [
     "chain (buildProxyHandlerChainFunc, dispatcher, UpgradeAwareHandler, vendored ReverseProxy, per-endpoint transports) "
     "between a raw TCP client and a stub TLS upstream (harness/common/chainrig.go)",
     "modelled, not verified (validated by the differential run only): net/url (ParseRequestURI, EscapedPath, validEncoded, "
-    "ParseQuery, Values.Encode), net/http request/response framing and header reading/writing, HTTP/2, connection "
-    "upgrades, RequestInfo resolution (the 'events' flag is an input of the model)",
+    "ParseQuery, Values.Encode), net/http request/response framing and header reading/writing, HTTP/2, the tunnel of a "
+    "connection upgrade after the upstream's answer (the upgrade REQUEST is modelled), RequestInfo resolution (the 'events' flag is an input of the model)",
 ]
 ASSUMPTIONS = [
     "a response stream cut in the middle (net/http race between the server closing the request body and the outgoing "
@@ -40,7 +40,7 @@ ASSUMPTIONS = [
     "answered 400 by the Go server and only checked for not reaching the upstream",
 ]
 
-HOSTS = {"ok.test": "COk", "limited.test": "CLimited", "bucket.test": "CLimited", "disabled.test": "CNoEndpoint",
+HOSTS = {"ok.test": "COk", "plain.test": "COk", "limited.test": "CLimited", "bucket.test": "CLimited", "disabled.test": "CNoEndpoint",
          "nohost.test": "CUnknown", "dead.test": "CDead"}
 EVENT_PATHS = [(b"/api/v1/namespaces/ns1/events", True), (b"/api/v1/events", True), (b"/api/v1/pods", False),
                (b"/apis/events.k8s.io/v1beta1/namespaces/n/events/e1", True), (b"/healthz", False),
@@ -118,6 +118,18 @@ def corpus():
                                          (b"Cache-Control", b"max-age=3"), (b"Date", b"Mon, 01 Jan 2001 00:00:00 GMT")],
                                    (70000, 5), b"text/plain"), tag="reply-headers"))
     c.append(L.mk_case(reply=reply(200, [], (3, 1)), tag="reply-no-cache-control"))
+    # connection upgrades: request line and headers as the upstream receives them
+    up = [(b"Connection", b"Upgrade"), (b"Upgrade", b"SPDY/3.1")]
+    c.append(L.mk_case(method="POST", target=b"/api/v1/namespaces/n/pods/p/exec?command=ls&command=-l&container=a%2Fb&x=%zz",
+                       headers=up + [(b"X-Stream-Protocol-Version", b"v4.channel.k8s.io"), (b"Keep-Alive", b"5"),
+                                     (b"X-Forwarded-For", b"1.2.3.4"), (b"Authorization", b"Bearer client")],
+                       reply=(101, [], (50, 3)), tag="upgrade-exec"))
+    c.append(L.mk_case(host="plain.test", target=b'/api/v1/namespaces/n/pods/a%2Fb/"x"/portforward', headers=up,
+                       reply=(101, [], (0, 0)), tag="upgrade-escaped-path"))
+    c.append(L.mk_case(target=b"/api/v1/namespaces/n/pods/p/attach", headers=up + [(b"User-Agent", b"kubectl/v1.18")],
+                       reply=(403, [(b"Content-Type", b"text/plain")], (7, 1)), tag="upgrade-refused"))
+    c.append(L.mk_case(host="limited.test", target=b"/api/v1/namespaces/n/pods/p/exec", headers=up, reply=(101, [], (5, 1)),
+                       tag="upgrade-limited"))
     # terminations
     for host in ("limited.test", "bucket.test", "disabled.test", "nohost.test", "dead.test"):
         c.append(L.mk_case(host=host, tag="term-" + host))
@@ -208,6 +220,17 @@ def gen_case(rng):
     elif k < 30:
         hs = [(a, b) for a, b in hs if not a.lower().startswith(b"impersonate-")] + [(b"Impersonate-User", b"bob")]
         deny = [("users", b"", b"bob", b"")]
+    if host == "ok.test" and rng.chance(1, 3):
+        host = "plain.test"
+    if rng.chance(1, 9):
+        # a connection upgrade (exec / attach / port-forward): every header is forwarded on this path
+        hs = hs + [(L.rand_case_flip(rng, b"Connection"), rng.choice([b"Upgrade", b"upgrade", b"keep-alive, Upgrade"])),
+                   (b"Upgrade", rng.choice([b"SPDY/3.1", b"websocket"]))]
+        hs = rng.shuffle(hs)
+        rp = ((101, [], (rng.randint(0, 200), rng.randint(1, 999))) if rng.chance(3, 4)
+              else (rng.choice([400, 403, 404, 500]), [(b"Content-Type", b"text/plain")], (rng.randint(1, 300), rng.randint(1, 999))))
+        return L.mk_case(host=host, method=rng.choice(["GET", "POST"]), target=target, headers=hs, deny=deny, reply=rp,
+                         tag="gen-upgrade")
     body = rand_body(rng, method)
     return L.mk_case(host=host, method=method, target=target, headers=hs, body=body,
                      chunked=(body[0] > 0 and rng.chance(1, 5)), deny=deny, reply=rand_reply(rng), tag="gen")
@@ -301,6 +324,8 @@ def _features(case):
     if any(bytes(h["k"]).lower() == b"connection" and bytes(h["v"]).strip() not in (b"", b"close", b"keep-alive")
            for h in case["headers"]):
         f.append("header:connection-named")
+    if any(bytes(h["k"]).lower() == b"connection" and b"upgrade" in bytes(h["v"]).lower() for h in case["headers"]):
+        f.append("path:connection-upgrade")
     if case["body"]["len"] > 0:
         f.append("body:nonempty")
     if case["host"] != "ok.test" or case["deny"]:
